@@ -230,6 +230,32 @@ def hyper_obligations(col, it, umat, label, cls, has_function=True, out_variants
             return okg and okh, "%s: a buffer that holds NaN gives %s" % (wh if okg else wg, "the right stress but a NaN elasticity" if okg else "a NaN stress")
         col.check("C03.O1o", "%s out= buffers holding NaN" % label, "a supplied out buffer is overwritten whatever it holds (a buffer left with NaN by an earlier, diverged evaluation gives the same stress and elasticity)", nan_out)
     history_obligation(col, it, umat, label, cls, [F, sv], [Fsym(name="G") if shape is None else Fsym(shape[0], dim2=shape[1], name="G"), sv], ngrad=1)
+    # the parameter dictionary `kwargs` of a material is rewritten by ConstitutiveMaterial.optimize() (copy, then kwargs[key] = value) and read by
+    # the view helpers: whatever a material reads its parameters from, stress and elasticity read them from the same place
+    try:
+        kw = it.getattr(umat, "kwargs")
+    except InterpRaise:
+        kw = None
+    if isinstance(kw, dict) and kw and shape is None:
+        def chk_kw():
+            saved = dict(kw)
+            try:
+                for k_ in list(kw):
+                    if kw[k_] is not None and not isinstance(kw[k_], (list, tuple, np.ndarray, str, bool)):
+                        kw[k_] = sym("alt_" + str(k_), True)
+                P2 = npmodel.to_obj(np.asarray(it.call_method(umat, "gradient", [[F, sv]])[0]))
+                A2 = npmodel.to_obj(np.asarray(it.call_method(umat, "hessian", [[F, sv]])[0]))
+            finally:
+                kw.clear()
+                kw.update(saved)
+            bad = []
+            for i, j, k, l in np.ndindex(*A2.shape[:4]):
+                if not is_zero(diff(entry(P2, (i, j), 2), entry(F, (k, l), 2)) - entry(A2, (i, j, k, l), 2)):
+                    bad.append((i, j, k, l))
+                    if len(bad) > 3:
+                        break
+            return not bad, "%s / %s: after the material's kwargs were rewritten the elasticity is not the derivative of the stress in entries %s (one of them reads the parameters from another place)" % (wg, wh, bad)
+        col.check("C03.O1k", "%s after its kwargs were rewritten" % label, "stress and elasticity take the material parameters from the same source: they stay derivative-consistent when the parameter dictionary is updated (as optimize() does)", chk_kw)
     return F, P_, A_
 
 
